@@ -60,6 +60,8 @@ type Party struct {
 	randSeen int
 	// Mute: events of this party are not written to the trace (attacker-run endpoints)
 	Mute bool
+	// lastCall is when the previous call on this party's conversation started (clock compensation)
+	lastCall time.Time
 	// NoKeys: the conversation has no long-term key; what it then does is not specified (its calls
 	// are adopted without comparison), only that nothing crashes and the peer stays conformant
 	NoKeys bool
@@ -400,6 +402,12 @@ func (w *World) call(p *Party, f func()) (res callResult) {
 	var m0, m1 runtime.MemStats
 	runtime.ReadMemStats(&m0)
 	t0 := time.Now()
+	// time passes only through Tick: the wall-clock time a long run takes (tens of thousands of
+	// attacker deliveries, object-graph scans) must not age the conversation's timestamps
+	if !p.lastCall.IsZero() {
+		otr3.VerifAgeClocks(p.Conv, -t0.Sub(p.lastCall))
+	}
+	p.lastCall = t0
 	func() {
 		defer func() {
 			if r := recover(); r != nil {
